@@ -1,7 +1,7 @@
 (* C22 proofs, part 4: next_token and the caller's loop.
    lexer_total_l      for EVERY byte string the fuel S (length s) is enough (no OutOfFuel): each
-                      next_token call either returns Eof or consumes at least one byte, each nested
-                      next_token call (comment) has consumed at least one byte;
+                      next_token call either returns Eof or consumes at least one byte, each further
+                      iteration of next_token's comment loop has consumed at least one byte;
    lexer_no_panic_l   on valid UTF-8 (the &str invariant) shorter than 2^31 bytes nothing panics and
                       the token list ends with Eof. *)
 From Coq Require Import ZArith List Bool Arith Lia ZifyBool.
@@ -87,7 +87,7 @@ Proof.
   induction fuel as [|f IH]; intros st Hi Hf; [lia|].
   cbn [next_token]. step. step.
   - simpl. split; [assumption|]. split; [lia|]. left. reflexivity.
-  - eapply wp_bind; [apply (wp_scan_token s pan Hgood); assumption|].
+  - eapply wp_bind; [apply (wp_comment_or_token s pan Hgood); assumption|].
     intros [t st2|st2] [? ?].
     + simpl. split; [assumption|]. split; [lia|]. right. lia.
     + eapply wp_bind; [apply IH; [assumption | lia]|].
